@@ -19,6 +19,7 @@ from typing import (
     Callable,
     cast,
     Iterable,
+    Iterator,
     TypeVar,
 )  # pylint: disable=unused-import
 
@@ -1000,6 +1001,44 @@ class Visitor(ast.NodeVisitor):
             for name in sorted(self._name_to_value.keys())
         ]
 
+        # An assignment expression in a comprehension binds its target in the scope which contains the comprehension,
+        # i.e., in the condition itself. The function compiled below stands in for that scope, so the values assigned
+        # during its execution are read back from it and made visible to the remainder of the re-computation.
+        assigned_names = []  # type: List[str]
+        if sys.version_info >= (3, 8):
+            assigned_names = sorted(
+                {
+                    descendant.target.id
+                    for descendant in ast.walk(node)
+                    if isinstance(descendant, ast.NamedExpr)
+                }
+            )
+
+        body = [ast.Return(node)]  # type: List[ast.stmt]
+        if assigned_names:
+            read_assigned_node = ast.parse(
+                "def read_assigned():\n"
+                "    assigned = dict()\n"
+                + "".join(
+                    "    try:\n"
+                    "        assigned[{name!r}] = {name}\n"
+                    "    except NameError:\n"
+                    "        pass\n".format(name=name)
+                    for name in assigned_names
+                )
+                + "    return assigned\n"
+            ).body[0]
+
+            body = [
+                read_assigned_node,
+                ast.Return(
+                    ast.Tuple(
+                        elts=[node, ast.Name(id="read_assigned", ctx=ast.Load())],
+                        ctx=ast.Load(),
+                    )
+                ),
+            ]
+
         if sys.version_info < (3,):
             raise NotImplementedError(
                 "Python versions below 3 not supported, got: {}".format(
@@ -1014,7 +1053,7 @@ class Visitor(ast.NodeVisitor):
                     args=args, kwonlyargs=[], kw_defaults=[], defaults=[]
                 ),
                 decorator_list=[],
-                body=[ast.Return(node)],
+                body=body,
             )
 
             module_node = ast.Module(body=[func_def_node])
@@ -1029,7 +1068,7 @@ class Visitor(ast.NodeVisitor):
                     defaults=[],
                 ),
                 decorator_list=[],
-                body=[ast.Return(node)],
+                body=body,
             )
 
             module_node = ast.Module(body=[func_def_node], type_ignores=[])
@@ -1044,7 +1083,25 @@ class Visitor(ast.NodeVisitor):
 
         generator_expr_func = module_locals["generator_expr"]
 
-        return generator_expr_func(**self._name_to_value)
+        if not assigned_names:
+            return generator_expr_func(**self._name_to_value)
+
+        result, read_assigned = generator_expr_func(**self._name_to_value)
+
+        if not isinstance(node, ast.GeneratorExp):
+            self._name_to_value.update(read_assigned())
+            return result
+
+        def propagating_assigned() -> Iterator[Any]:
+            """Iterate over the generator expression and read the assigned values back after each step."""
+            try:
+                for item in result:
+                    self._name_to_value.update(read_assigned())
+                    yield item
+            finally:
+                self._name_to_value.update(read_assigned())
+
+        return propagating_assigned()
 
     def _visit_comprehension_parts(
         self,
